@@ -326,7 +326,10 @@ package memberlist
 //@   requires ok: mlNet(m) && from != nil
 
 //@ func decodeCompoundMessage(buf)
-//@   safety [C13]
+//@   safety [C11,C13]
+//@   loop #2 invariant got [C11]: len(parts) == rangeindex + 1 && rangeindex < len(lengths)
+//@   ensures count [C11]: result2 == nil ==> result0 + len(result1) == entry(buf)[0]
+//@   ensures whole [C11]: result2 == nil && result0 == 0 ==> len(result1) == entry(buf)[0]
 
 //@ func decryptPayload(keys, msg, data)
 //@   safety [C13,C14]
